@@ -1499,3 +1499,148 @@ Section Conv2d.
     rewrite Hrule0. lia.
   Qed.
 End Conv2d.
+
+(* ================================================================== max_pool2d *)
+(* consecutive blocks of destinations *)
+Lemma seq_concat {A} n (F : nat -> list (nat * A)) : forall a o,
+  (forall i, i < a -> map fst (F i) = seq (o + i * n) n) ->
+  map fst (flat_map2 a F) = seq o (a * n).
+Proof.
+  unfold flat_map2, range. induction a as [|a IH]; intros o H; [reflexivity|].
+  rewrite seq_S, flat_map_app, map_app. cbn [flat_map Nat.add]. rewrite app_nil_r.
+  rewrite (IH o) by (intros i Hi; apply H; lia). rewrite (H a) by lia.
+  replace (S a * n) with (a * n + n) by lia. rewrite seq_app. reflexivity.
+Qed.
+
+Section Pool2d.
+  Variables (sx sy : tshape) (xh xw yh yw R : nat) (w0 w1 p0 p1 s0 s1 : nat).
+  Hypothesis Hxh : tget sx 0 = xh.
+  Hypothesis Hxw : tget sx 1 = xw.
+  Hypothesis Hyh : tget sy 0 = yh.
+  Hypothesis Hyw : tget sy 1 = yw.
+  (* R = channels * batch *)
+  Hypothesis Hsx : tsize sx = xh * xw * R.
+  Hypothesis Hxh0 : 0 < xh.
+  Hypothesis Hxw0 : 0 < xw.
+
+  (* the window of output (y_y, y_x) of plane r: the positions inside the image, columns
+     (w_x) outermost, rows (w_y) innermost = increasing column-major address *)
+  Definition pool_window (r y_x y_y : nat) : list nat :=
+    flat_map2 w1 (fun w_x =>
+      if (p1 <=? y_x * s1 + w_x) && (y_x * s1 + w_x - p1 <? xw) then
+        flat_map2 w0 (fun w_y =>
+          if (p0 <=? y_y * s0 + w_y) && (y_y * s0 + w_y - p0 <? xh)
+          then [r * (xh * xw) + (y_x * s1 + w_x - p1) * xh + (y_y * s0 + w_y - p0)] else [])
+      else []).
+
+  Lemma pool_repeat : tsize sx / (xh * xw) = R.
+  Proof. rewrite Hsx, Nat.mul_comm. apply Nat.div_mul. nia. Qed.
+
+  Lemma pool2d_form :
+    pool2d_red sx sy w0 w1 p0 p1 s0 s1
+    = flat_map2 R (fun r => flat_map2 yw (fun y_x => map (fun y_y =>
+        (r * (yh * yw) + y_x * yh + y_y, pool_window r y_x y_y)) (range yh))).
+  Proof. unfold pool2d_red. cbv zeta. rewrite Hxh, Hxw, Hyh, Hyw, pool_repeat. reflexivity. Qed.
+
+  (* C11: every output element written exactly once, in increasing order *)
+  Theorem pool2d_sequential : sequential (pool2d_red sx sy w0 w1 p0 p1 s0 s1) (R * (yw * yh)).
+  Proof.
+    unfold sequential. rewrite pool2d_form. apply (seq_concat (yw * yh) _ R 0). intros r Hr.
+    apply (seq_concat yh _ yw (0 + r * (yw * yh))). intros y_x Hx.
+    rewrite map_map. cbn [fst]. unfold range.
+    rewrite (map_ext _ (fun y_y => (0 + r * (yw * yh) + y_x * yh) + y_y)).
+    - rewrite map_add_seq. f_equal. lia.
+    - intro y_y. rewrite (Nat.mul_comm yh yw). lia.
+  Qed.
+
+  Lemma pool_window_In r y_x y_y s :
+    In s (pool_window r y_x y_y) <->
+    exists w_x w_y, w_x < w1 /\ w_y < w0 /\
+      p1 <= y_x * s1 + w_x /\ y_x * s1 + w_x - p1 < xw /\
+      p0 <= y_y * s0 + w_y /\ y_y * s0 + w_y - p0 < xh /\
+      s = r * (xh * xw) + (y_x * s1 + w_x - p1) * xh + (y_y * s0 + w_y - p0).
+  Proof.
+    unfold pool_window. rewrite In_flat_map2. split.
+    - intros [w_x [Hwx H]].
+      destruct ((p1 <=? y_x * s1 + w_x) && (y_x * s1 + w_x - p1 <? xw)) eqn:E1; [|destruct H].
+      apply In_flat_map2 in H. destruct H as [w_y [Hwy H]].
+      destruct ((p0 <=? y_y * s0 + w_y) && (y_y * s0 + w_y - p0 <? xh)) eqn:E0; [|destruct H].
+      destruct H as [<-|[]]. apply andb_true_iff in E1, E0.
+      rewrite Nat.leb_le, Nat.ltb_lt in E1, E0. exists w_x, w_y. tauto.
+    - intros [w_x [w_y [Hwx [Hwy [H1 [H2 [H3 [H4 ->]]]]]]]]. exists w_x. split; [exact Hwx|].
+      rewrite (proj2 (andb_true_iff _ _)) by (rewrite Nat.leb_le, Nat.ltb_lt; tauto).
+      apply In_flat_map2. exists w_y. split; [exact Hwy|].
+      rewrite (proj2 (andb_true_iff _ _)) by (rewrite Nat.leb_le, Nat.ltb_lt; tauto).
+      left. reflexivity.
+  Qed.
+
+  (* C02: output (y_y, y_x) of plane r takes the maximum over exactly the in-image positions of
+     its window *)
+  Theorem pool2d_spec d cs :
+    In (d, cs) (pool2d_red sx sy w0 w1 p0 p1 s0 s1) <->
+    exists r y_x y_y, r < R /\ y_x < yw /\ y_y < yh /\
+      d = r * (yh * yw) + y_x * yh + y_y /\ cs = pool_window r y_x y_y.
+  Proof.
+    rewrite pool2d_form, In_flat_map2. split.
+    - intros [r [Hr H]]. apply In_flat_map2 in H. destruct H as [y_x [Hx H]].
+      apply In_map_range in H. destruct H as [y_y [Hy E]]. injection E as -> ->.
+      exists r, y_x, y_y. auto.
+    - intros [r [y_x [y_y [Hr [Hx [Hy [-> ->]]]]]]]. exists r. split; [exact Hr|].
+      apply In_flat_map2. exists y_x. split; [exact Hx|]. apply In_map_range. exists y_y. auto.
+  Qed.
+
+  (* C11: every candidate is inside x *)
+  Theorem pool2d_in_bounds : red_in_bounds (pool2d_red sx sy w0 w1 p0 p1 s0 s1) (tsize sx).
+  Proof.
+    apply Forall_forall. intros [d cs] Hin. cbn [snd]. apply pool2d_spec in Hin.
+    destruct Hin as [r [y_x [y_y [Hr [Hx [Hy [-> ->]]]]]]]. apply Forall_forall. intros s Hs.
+    apply pool_window_In in Hs. destruct Hs as [w_x [w_y [_ [_ [_ [H2 [_ [H4 ->]]]]]]]].
+    rewrite Hsx. replace (xh * xw * R) with (R * (xw * xh)) by ring. rewrite (Nat.mul_comm xh xw).
+    pose proof (idx_lt _ _ _ _ H2 H4) as A.
+    assert ((r + 1) * (xw * xh) <= R * (xw * xh)) by (apply Nat.mul_le_mono_r; lia). lia.
+  Qed.
+
+  (* a window that lies entirely in the padding has NO candidate (possible as soon as
+     padding >= window, which shape_ops::pool2d accepts): the C++ then stores
+     numeric_limits<float>::lowest() *)
+  Theorem pool2d_window_empty r y_x y_y : y_y * s0 + w0 <= p0 -> pool_window r y_x y_y = [].
+  Proof.
+    intro H. unfold pool_window, flat_map2. apply flat_map_nil. intros w_x _.
+    destruct ((p1 <=? y_x * s1 + w_x) && (y_x * s1 + w_x - p1 <? xw)); [|reflexivity].
+    apply flat_map_nil. intros w_y Hw. unfold range in Hw. apply in_seq in Hw.
+    replace (p0 <=? y_y * s0 + w_y) with false by (symmetry; apply Nat.leb_gt; lia). reflexivity.
+  Qed.
+
+  (* in general: a window has a candidate iff some position of it is inside the image *)
+  Theorem pool2d_window_nonempty r y_x y_y :
+    pool_window r y_x y_y <> [] <->
+    exists w_x w_y, w_x < w1 /\ w_y < w0 /\
+      p1 <= y_x * s1 + w_x /\ y_x * s1 + w_x - p1 < xw /\
+      p0 <= y_y * s0 + w_y /\ y_y * s0 + w_y - p0 < xh.
+  Proof.
+    split.
+    - intro H. destruct (pool_window r y_x y_y) as [|s l] eqn:E; [congruence|].
+      assert (Hin : In s (pool_window r y_x y_y)) by (rewrite E; left; reflexivity).
+      apply pool_window_In in Hin. destruct Hin as [w_x [w_y Hw]]. exists w_x, w_y. tauto.
+    - intros [w_x [w_y Hw]] E.
+      assert (Hin : In (r * (xh * xw) + (y_x * s1 + w_x - p1) * xh + (y_y * s0 + w_y - p0)) (pool_window r y_x y_y)).
+      { apply pool_window_In. exists w_x, w_y. tauto. }
+      rewrite E in Hin. destruct Hin.
+  Qed.
+End Pool2d.
+
+(* ================================================================== ab_bw, restated *)
+(* add_bw_impl ... pow_bw_impl walk gy exactly as the forward kernel walks y *)
+Theorem ab_bw_sequential sga sgb sgy V B : tvolume sgy = V -> tbatch sgy = B ->
+  sequential (ab_bw sga sgb sgy) (B * V).
+Proof. intros HV HB. rewrite ab_bw_is_ab_fw. exact (ab_fw_sequential sga sgb sgy V B HV HB). Qed.
+
+Theorem ab_bw_spec sga sgb sgy V B d ia ib : tvolume sgy = V -> tbatch sgy = B ->
+  (In (d, (ia, ib)) (ab_bw sga sgb sgy) <->
+   exists b i, b < B /\ i < V /\ d = b * V + i /\ ia = bsel sga b * V + i /\ ib = bsel sgb b * V + i).
+Proof. intros HV HB. rewrite ab_bw_is_ab_fw. exact (ab_fw_spec sga sgb sgy V B HV HB d ia ib). Qed.
+
+Theorem ab_bw_in_bounds sga sgb sgy V B : tvolume sgy = V -> tbatch sgy = B ->
+  tvolume sga = V -> tvolume sgb = V -> tbatch sga = 1 \/ tbatch sga = B -> tbatch sgb = 1 \/ tbatch sgb = B ->
+  Forall (fun e => fst e < tsize sgy /\ fst (snd e) < tsize sga /\ snd (snd e) < tsize sgb) (ab_bw sga sgb sgy).
+Proof. intros. rewrite ab_bw_is_ab_fw. apply (ab_fw_in_bounds sga sgb sgy V B); assumption. Qed.
